@@ -16,7 +16,9 @@ p = os.path.join(V, "docsrc", "part10.md")
 s = open(p).read()
 head = s[:s.index("| change | file |")]
 tail = s[s.index("\nHand-made mutations"):]
-head = re.sub(r"\d+ changes: \d+ were reported by the check as first\s+built, \d+ were missed at first", "%d changes: %d were reported by the check as first\nbuilt, %d were missed at first" % (n, n - strengthened, strengthened), head)
+nno = sum(1 for x in glob.glob(os.path.join(V, "seeded", "*", "meta.json")) if json.load(open(x))["evaluation"]["caught"] == "no")
+head = re.sub(r"\d+ changes: \d+ were reported by the check as first\s+built, \d+ were missed at first and are reported after a strengthening of harness or specification\n\(exit 1, `VIOLATION`, the unchanged tree still clean\), \d+ are not reported",
+              "%d changes: %d were reported by the check as first\nbuilt, %d were missed at first and are reported after a strengthening of harness or specification\n(exit 1, `VIOLATION`, the unchanged tree still clean), %d are not reported" % (n, n - strengthened - nno, strengthened, nno), head)
 table = "| change | file | result | clauses reported | what it needs / what was strengthened |\n|--------|------|--------|------------------|----------------------------------------|\n" + "\n".join(rows) + "\n"
 open(p, "w").write(head + table + tail)
 print(n, "changes,", strengthened, "after strengthening")
